@@ -16,6 +16,8 @@ def run(ctx):
         sh.append(dict(name="morton<%s>/asan-rel" % tag, src=SRC, flavour="asan-rel", defines=["SH_MORTON", "SH_I=%s" % ty], primary=False))
     sh.append(dict(name="hilbert/asan-dbg", src=SRC, flavour="asan-dbg", defines=["SH_HILBERT"]))
     sh.append(dict(name="hilbert/asan-rel", src=SRC, flavour="asan-rel", defines=["SH_HILBERT"], primary=False))
+    for fl, prim in (("asan-dbg+bmi2", True), ("asan-rel", False)):
+        sh.append(dict(name="full-range-narrow-coordinates/%s" % fl, src=SRC, flavour=fl, defines=["SH_STRIDED", "SH_MORTON", "SH_HILBERT", "SH_NARROW"], primary=prim))
     ctx.run_shards(sh, timeout=7200)
     return ctx.finish(
         rule=("layers {strided, morton<use_bmi2=true> (pdep path in the +bmi2 build), morton<false>, hilbert (N=2)} x N 1..4 x coordinate "
@@ -24,7 +26,9 @@ def run(ctx):
               "the view, all read back, one random cell overwritten, all re-read; curve storage = (pow2 >= max extent)^N as the library's "
               "conversions allocate; ASan + library bounds assertions on.  (b) probe-backed: random extents up to 2^20 per axis (storage up "
               "to 2^62 cells, none allocated), boundary (0, extent-1, 2^k, 2^k-1) and random in-range coordinates: every flat index < storage "
-              "length and no two distinct coordinates share one.  non-trivial: extents not a power-of-two cube; distinct = hash of "
+              "length and no two distinct coordinates share one.  (c) 8- and 16-bit coordinate types over their full range: one axis of extent 2^bits, 2^bits-1 "
+              "or 2^(bits-1)+1 (the extent itself not representable in the coordinate type), the others 1, 3, 4 or equal; (a) where the storage "
+              "fits, (b) always.  non-trivial: extents not a power-of-two cube; distinct = hash of "
               "(instantiation, extents)"),
         assumptions=["for unsigned/int coordinates the extents are bounded so the flat index fits the coordinate type (the row-major layer accumulates in it)",
                      "extents whose storage does not fit memory are covered through the probe (index arithmetic) only"],
